@@ -46,7 +46,7 @@ def path_atom(e: ast.AST) -> str | None:
                 return "absolute" if isinstance(e.ops[0],
                                                 ast.NotEq) else "relative"
             if isinstance(a, ast.Attribute) and a.attr == "name" and \
-                    const_str(b) is not None:
+                    isinstance(b, (ast.Constant, ast.Name, ast.Attribute)):
                 return "name_bad" if isinstance(e.ops[0],
                                                 ast.NotEq) else "name_ok"
     if isinstance(e, ast.Call):
